@@ -59,8 +59,43 @@ func runC04(c *Ctx) {
 			return cl != nil && MatchCC(&cl.Call, sTimeSub) && len(cl.Call.Args) == 2 && isNext(cl.Call.Args[0]) && isClock(cl.Call.Args[1])
 		})
 	}
-	notAfter := func(in ssa.Instruction) bool {
-		for _, f := range CmpFactsAt(in) {
+	// the difference handed on through a helper of the package (waitFor, passed := w.untilNext(next)): every return of
+	// the helper that agrees with what is known about its other results at the use yields the difference
+	var isDiffAt func(v ssa.Value, facts []BoolFact, depth int) bool
+	isDiffAt = func(v ssa.Value, facts []BoolFact, depth int) bool {
+		if isDiff(v) {
+			return true
+		}
+		rs := Roots(v, false)
+		if len(rs) == 0 || depth > 2 {
+			return false
+		}
+		for _, r := range rs {
+			if isDiff(r) {
+				continue
+			}
+			cl, idx := CallOfValue(r)
+			if cl == nil || cl.Call.StaticCallee() == nil || PkgOf(cl.Call.StaticCallee()) != PkgOf(wait) {
+				return false
+			}
+			if idx < 0 {
+				idx = 0
+			}
+			rets := FeasibleReturns(cl, facts)
+			if len(rets) == 0 {
+				return false
+			}
+			for _, ret := range rets {
+				if idx >= len(ret.Results) || !isDiffAt(ret.Results[idx], BoolFactsAt(ret), depth+1) {
+					return false
+				}
+			}
+		}
+		return true
+	}
+	var notAfterFacts func(bfs []BoolFact, depth int) bool
+	notAfterFacts = func(bfs []BoolFact, depth int) bool {
+		for _, f := range CmpFactsOf(bfs) {
 			f = f.Canon()
 			if (f.Op == token.LEQ || f.Op == token.LSS) && isDiff(f.X) {
 				if k, ok := ConstInt(f.Y); ok && k <= 0 {
@@ -68,22 +103,37 @@ func runC04(c *Ctx) {
 				}
 			}
 		}
-		for _, bf := range BoolFactsAt(in) {
-			cl, _ := CallOfValue(bf.Subj)
-			if cl == nil || bf.Val {
+		for _, bf := range bfs {
+			cl, idx := CallOfValue(bf.Subj)
+			if cl == nil {
 				continue
 			}
-			if MatchCC(&cl.Call, Spec{"time", "Time", "After"}) && isNext(cl.Call.Args[0]) && isClock(cl.Call.Args[1]) {
+			if !bf.Val && MatchCC(&cl.Call, Spec{"time", "Time", "After"}) && isNext(cl.Call.Args[0]) && isClock(cl.Call.Args[1]) {
 				return true
 			}
-			if MatchCC(&cl.Call, Spec{"time", "Time", "Before"}) && isClock(cl.Call.Args[0]) && isNext(cl.Call.Args[1]) {
+			if !bf.Val && MatchCC(&cl.Call, Spec{"time", "Time", "Before"}) && isClock(cl.Call.Args[0]) && isNext(cl.Call.Args[1]) {
 				return true
+			}
+			// a boolean result of a helper of the package (passed): every return yielding it is justified
+			if sc := cl.Call.StaticCallee(); sc != nil && depth < 2 && PkgOf(sc) == PkgOf(wait) && len(sc.Blocks) > 0 {
+				alts := PredicateAlternatives(cl, idx, bf.Val)
+				all := len(alts) > 0
+				for _, a := range alts {
+					if !notAfterFacts(a, depth+1) {
+						all = false
+					}
+				}
+				if all {
+					return true
+				}
 			}
 		}
 		return false
 	}
+	notAfter := func(in ssa.Instruction) bool { return notAfterFacts(BoolFactsAt(in), 0) }
 	// timer cases
 	timerCase := func(b *ssa.BasicBlock) bool {
+		wait := b.Parent() // the select is in the function of the exit (Wait or the helper it ends with)
 		for _, s := range Selects(wait) {
 			for _, cs := range SelectCases(s) {
 				if cs.State == nil || cs.State.Dir != types.RecvOnly || !cs.Body.Dominates(b) {
@@ -95,10 +145,10 @@ func runC04(c *Ctx) {
 				// armed with the difference on every path into the select
 				armed := PathQuery{Fn: wait, Stop: func(in ssa.Instruction) bool { return in == ssa.Instruction(s) }, Exit: func(*ssa.BasicBlock) bool { return false },
 					Weight: func(in ssa.Instruction) (int, int) {
-						if IsCall(in, Spec{"time", "", "NewTimer"}) && isDiff(CC(in).Args[0]) {
+						if IsCall(in, Spec{"time", "", "NewTimer"}) && isDiffAt(CC(in).Args[0], BoolFactsAt(in), 0) {
 							return 1, 1
 						}
-						if IsCall(in, Spec{"time", "Timer", "Reset"}) && isDiff(CC(in).Args[1]) {
+						if IsCall(in, Spec{"time", "Timer", "Reset"}) && isDiffAt(CC(in).Args[1], BoolFactsAt(in), 0) {
 							return 1, 1
 						}
 						return 0, 0
@@ -111,28 +161,56 @@ func runC04(c *Ctx) {
 		return false
 	}
 	nTrue := 0
-	for _, b := range wait.Blocks {
-		r, ok := b.Instrs[len(b.Instrs)-1].(*ssa.Return)
-		if !ok || len(r.Results) != 1 {
-			continue
-		}
-		cv, isC := ConstCond(Strip(r.Results[0]))
-		if isC && !cv {
-			continue
-		}
-		if !isC {
-			// named result or computed: must be a value that is only true under the accepted conditions; be strict
-			rs := Roots(r.Results[0], false)
-			allFalse := len(rs) > 0
-			for _, x := range rs {
-				if v, ok := ConstCond(x); !ok || v {
-					allFalse = false
-				}
-			}
-			if allFalse {
+	// the exits that can report true: the returns of Wait, and where Wait ends with `return w.helper(...)` the returns
+	// of that helper of the package
+	var trueExits []*ssa.Return
+	var collect func(fn *ssa.Function, depth int)
+	collect = func(fn *ssa.Function, depth int) {
+		for _, b := range fn.Blocks {
+			r, ok := b.Instrs[len(b.Instrs)-1].(*ssa.Return)
+			if !ok || len(r.Results) != 1 {
 				continue
 			}
+			cv, isC := ConstCond(Strip(r.Results[0]))
+			if isC && !cv {
+				continue
+			}
+			if !isC {
+				// named result or computed: must be a value that is only true under the accepted conditions; be strict
+				rs := Roots(r.Results[0], false)
+				allFalse := len(rs) > 0
+				delegated := len(rs) > 0 && depth < 2
+				for _, x := range rs {
+					v, ok := ConstCond(x)
+					if !ok || v {
+						allFalse = false
+					}
+					if ok && !v {
+						continue
+					}
+					cl, _ := x.(*ssa.Call)
+					if cl == nil || cl.Call.StaticCallee() == nil || PkgOf(cl.Call.StaticCallee()) != PkgOf(wait) || len(cl.Call.StaticCallee().Blocks) == 0 || SoleCallSite(cl.Call.StaticCallee()) != ssa.Instruction(cl) {
+						delegated = false
+					}
+				}
+				if allFalse {
+					continue
+				}
+				if delegated {
+					for _, x := range rs {
+						if cl, _ := x.(*ssa.Call); cl != nil {
+							collect(cl.Call.StaticCallee(), depth+1)
+						}
+					}
+					continue
+				}
+			}
+			trueExits = append(trueExits, r)
 		}
+	}
+	collect(wait, 0)
+	for _, r := range trueExits {
+		b := r.Block()
 		nTrue++
 		ok1 := notAfter(r)
 		ok2 := !ok1 && timerCase(b)
@@ -175,7 +253,7 @@ func runC04(c *Ctx) {
 	{
 		var stale []*ssa.Store
 		nStores := 0
-		for _, st := range FieldStoresIn([]*ssa.Function{wait}, "Waiter", "overdueDuration") {
+		for _, st := range FieldStoresIn(FindFuncs(wait, 2, func(g *ssa.Function) bool { return PkgOf(g) == PkgOf(wait) && (g == wait || P.WithinOnly(g, func(f *ssa.Function) bool { return f == wait }, 3)) }), "Waiter", "overdueDuration") {
 			if k, ok := ConstInt(st.Val); ok && k == 0 {
 				continue
 			}
